@@ -3,6 +3,10 @@ package mon
 import (
 	"fmt"
 	"math"
+	"math/big"
+	"strconv"
+	"strings"
+	"verifharness/internal/refjson"
 
 	at "github.com/DanielSvub/anytype"
 
@@ -552,6 +556,132 @@ func runC07(c *fw.Ctx) {
 			}
 		})
 	})
+	// operands that came out of the parser from differently spelled documents of the same tree (number literals with
+	// trailing zeros, exact decimal expansions, shifted exponents; other blanks and string escapes): what was parsed from
+	// which text must not matter to Equals
+	c.Cases("parsed-twins", c.N(400, 100000), false, func(i int, r *rng.R) {
+		root := spec.List
+		if r.Bool() {
+			root = spec.Obj
+		}
+		a := spec.GenTree(r, spec.Opts{MaxDepth: r.Range(1, 3), MaxWidth: r.Range(1, 5), Root: root, ScalarBias: r.Range(5, 8)})
+		// make sure some floats are there
+		extra := []float64{0.1, 1.5, -2.25, 1e21, 1e-7, 123456.789, 0.30000000000000004, 5e-324, 1.7976931348623157e308, -0.0, 100}
+		for k := r.Range(1, 3); k > 0; k-- {
+			f := spec.FloatV(extra[r.Intn(len(extra))])
+			if a.K == spec.List {
+				a.L = append(a.L, f)
+			} else {
+				a.Set(fmt.Sprintf("f%d", k), f)
+			}
+		}
+		b, desc := a.Clone(), "same tree"
+		if r.Chance(1, 3) {
+			b, desc = editTree(r, a)
+		}
+		in := func() string {
+			return fmt.Sprintf("two documents (%s), floats spelled differently\n a = %s\n b = %s", desc, a.Canon(), b.Canon())
+		}
+		guard(c, in, func() {
+			c.Distinct(in())
+			d1 := renderRoot(r, respellFloats(r, a), randStyle(r), false)
+			d2 := renderRoot(r, respellFloats(r, b), randStyle(r), false)
+			c.MarkInput(d1 + "\n" + d2)
+			p1, e1, pan1 := parseRoot(a.K, d1)
+			p2, e2, pan2 := parseRoot(b.K, d2)
+			if e1 != nil || e2 != nil || pan1 != "" || pan2 != "" || p1 == nil || p2 == nil {
+				c.Count("twins_not_parsed") // the parser's reading of a document is C03's business
+				return
+			}
+			w1, err1 := drive.Walk(p1)
+			w2, err2 := drive.Walk(p2)
+			if err1 != nil || err2 != nil || drive.Diff(w1, a) != "" || drive.Diff(w2, b) != "" {
+				c.Count("twins_not_parsed_as_their_tree")
+				return
+			}
+			c.Count("parsed_twin_pairs")
+			want := spec.Equal(a, b)
+			built := drive.Build(r, a)
+			checks := []struct {
+				name string
+				x, y any
+				want bool
+			}{{"parsed(doc a).Equals(parsed(doc b))", p1, p2, want}, {"parsed(doc b).Equals(parsed(doc a))", p2, p1, want},
+				{"built(a).Equals(parsed(doc a))", built, p1, true}, {"parsed(doc a).Equals(built(a))", p1, built, true},
+				{"built(a).Equals(parsed(doc b))", built, p2, want}}
+			for _, ch := range checks {
+				var got bool
+				if pan, msg := drive.Protect(func() { got = equalsOf(ch.x, ch.y) }); pan {
+					c.Violate("equals-panics", in()+"\ndoc a = "+spec.Trunc(d1, 400)+"\ndoc b = "+spec.Trunc(d2, 400)+"\n"+ch.name, fmt.Sprint(ch.want), "panic: "+msg)
+					return
+				}
+				if got != ch.want {
+					c.Violate("equals-differs-from-structural-equality", in()+"\ndoc a = "+spec.Trunc(d1, 400)+"\ndoc b = "+spec.Trunc(d2, 400)+"\n"+ch.name, fmt.Sprint(ch.want), fmt.Sprint(got))
+					return
+				}
+			}
+		})
+	})
+	// operands that are results of deriving operations whose element order is up to the map iteration (Keys, Values) or
+	// that went through other deriving operations: Equals is positional all the same, i.e. it agrees with what Get shows
+	c.Cases("derived-operands", c.N(400, 100000), false, func(i int, r *rng.R) {
+		n := r.Range(2, 7)
+		keys := make([]string, n)
+		vals := make([]any, n)
+		for j := range keys {
+			keys[j] = fmt.Sprintf("k%d", j)
+			vals[j] = []any{j, "v", j % 2, 1.5, nil, true}[r.Intn(6)]
+		}
+		in := func() string {
+			return fmt.Sprintf("Keys() / Values() lists of two objects with the fields %v = %v set in different orders", keys, vals)
+		}
+		guard(c, in, func() {
+			c.Distinct(in())
+			mk := func(order []int) at.Object {
+				o := at.NewObject()
+				for _, j := range order {
+					o.Set(keys[j], vals[j])
+				}
+				return o
+			}
+			for rep := 0; rep < 4; rep++ {
+				o1, o2 := mk(r.Perm(n)), mk(r.Perm(n))
+				var x, y at.List
+				var what string
+				switch r.Intn(4) {
+				case 0:
+					x, y, what = o1.Keys(), o2.Keys(), "Keys()"
+				case 1:
+					x, y, what = o1.Values(), o2.Values(), "Values()"
+				case 2:
+					x, y, what = at.NewList(o1.Keys(), 1), at.NewList(o2.Keys(), 1), "[Keys(), 1]"
+				default:
+					x, y, what = o1.Keys().Clone(), o2.Values(), "Keys().Clone() / Values()"
+				}
+				wx, errx := drive.Walk(x)
+				wy, erry := drive.Walk(y)
+				if errx != nil || erry != nil {
+					c.Violate("operand-unwalkable", in(), "walkable lists", fmt.Sprint(errx, erry))
+					return
+				}
+				want := spec.Equal(wx.ToSpec(), wy.ToSpec())
+				c.Count("derived_operand_pairs")
+				if want {
+					c.Count("derived_operand_pairs_equal")
+				}
+				for k := 0; k < 2; k++ {
+					got := x.Equals(y)
+					if k == 1 {
+						got = y.Equals(x)
+					}
+					if got != want {
+						c.Violate("equals-differs-from-structural-equality", in()+fmt.Sprintf("\noperands: %s  x = %s  y = %s", what, wx.Canon(), wy.Canon()), fmt.Sprint(want), fmt.Sprint(got))
+						return
+					}
+				}
+			}
+		})
+	})
 	c.Cases("pairs", c.N(5000, 3000000), false, func(i int, r *rng.R) {
 		root := spec.List
 		if r.Bool() {
@@ -681,4 +811,85 @@ func selfC07(s *fw.SelfCheck) {
 		}
 	}
 	s.Expect(eq > 20 && ne > 100, fmt.Sprintf("edit generator unbalanced: %d equal, %d unequal", eq, ne))
+}
+
+// respellFloats returns a copy of the tree in which every float carries a literal that spells the same float64 in
+// another way: trailing zeros, the exact decimal expansion, a shifted or differently written exponent.
+func respellFloats(r *rng.R, t *spec.Spec) *spec.Spec {
+	c := t.Clone()
+	var rec func(s *spec.Spec)
+	rec = func(s *spec.Spec) {
+		switch s.K {
+		case spec.Float:
+			s.Lit = altFloatLit(r, s.F)
+		case spec.List:
+			for _, e := range s.L {
+				rec(e)
+			}
+		case spec.Obj:
+			for _, e := range s.Vals {
+				rec(e)
+			}
+		}
+	}
+	rec(c)
+	return c
+}
+
+func altFloatLit(r *rng.R, f float64) string {
+	short := refjson.FloatLit(f)
+	mant, exp := short, ""
+	if i := strings.IndexAny(short, "eE"); i >= 0 {
+		mant, exp = short[:i], short[i:]
+	}
+	zeros := strings.Repeat("0", r.Range(1, 25))
+	switch r.Intn(6) {
+	case 0:
+		return short
+	case 1: // trailing zeros in the fraction
+		if strings.Contains(mant, ".") {
+			return mant + zeros + exp
+		}
+		return mant + "." + zeros + exp
+	case 2: // exact decimal expansion (moderate magnitudes only)
+		if f != 0 && math.Abs(f) > 1e-30 && math.Abs(f) < 1e30 {
+			x := new(big.Float).SetPrec(4000).SetFloat64(f).Text('f', 1200)
+			x = strings.TrimRight(x, "0")
+			if strings.HasSuffix(x, ".") {
+				x += "0"
+			}
+			return x
+		}
+		return short
+	case 3: // an explicit zero exponent, in several writings
+		if exp == "" {
+			return mant + []string{"e0", "E0", "e+0", "e-0", "E+00", "e000"}[r.Intn(6)]
+		}
+		return mant + strings.ToUpper(exp)
+	case 4: // exponent shifted by one digit position
+		if exp == "" && strings.Contains(mant, ".") && !strings.HasPrefix(strings.TrimPrefix(mant, "-"), "0.") {
+			// d.ddd -> dddd e-k
+			neg := strings.HasPrefix(mant, "-")
+			m := strings.TrimPrefix(mant, "-")
+			k := len(m) - 1 - strings.Index(m, ".")
+			digits := strings.TrimLeft(strings.Replace(m, ".", "", 1), "0")
+			if digits == "" {
+				digits = "0"
+			}
+			out := digits + ".0e-" + strconv.Itoa(k)
+			if neg {
+				out = "-" + out
+			}
+			return out
+		}
+		return short
+	default: // trailing zeros and a zero exponent together
+		if exp == "" {
+			if strings.Contains(mant, ".") {
+				return mant + zeros + "e+00"
+			}
+			return mant + "." + zeros + "e+00"
+		}
+		return short
+	}
 }
